@@ -61,7 +61,7 @@ CHECKS = {
             {"pkg": "kvx", "run": "^TestC11_Comparer$", "quick": 200000, "thorough": 6000000},
             {"pkg": "kvx", "run": "^TestC11_Engine$", "quick": 400, "thorough": 8000},
         ],
-        "floors": {"ge3_blocks": 0.0005},
+        "floors": {"ge3_blocks": {"quick": 100, "thorough": 2000}},
         "rule": "(a) triples of byte strings (adversarial alphabet {-./01ab~,0x00,0xff} or arbitrary bytes, length 0..12, related by "
                 "shared prefixes): antisymmetry, cmp==0 <=> equal bytes, transitivity, agreement with an independent "
                 "implementation of the documented slash order; (b) Pebble's Comparer contract on kv.OxiaSlashSpanComparer "
@@ -153,8 +153,8 @@ CHECKS = {
     "C08": {
         "level": "exploration",
         "tests": [
-            {"pkg": "leaderx", "run": "^TestC08_Pipeline$", "quick": 600, "thorough": 12000},
-            {"pkg": "leaderx", "run": "^TestC08_Tracker$", "quick": 40000, "thorough": 1000000},
+            {"pkg": "leaderx", "run": "^TestC08_Pipeline$", "quick": 600, "thorough": 60000},
+            {"pkg": "leaderx", "run": "^TestC08_Tracker$", "quick": 40000, "thorough": 8000000},
         ],
         "floors": {"concurrent_writers": 0.005, "duplicate_ack": 0.05},
         "rule": "(a) a real RF=1 LeaderController (real WAL with 4 KiB..1 MiB segments, real Pebble) with 1-12 concurrent writer "
